@@ -256,7 +256,8 @@ def gen_nufft_formulas(ctx=None):
             raise U("_scale_coord statement")
     if stmts != [("Mult", "output[..., i]", "scale"), ("Add", "output[..., i]", "shift")]:
         raise U("_scale_coord update sequence %s" % stmts)
-    if ast.unparse(T.find_assign(fn, "output")) != "coord.copy()":
+    # a fresh copy of the coordinates: in coord's own dtype, or in a floating dtype wide enough for integer-typed coordinates
+    if ast.unparse(T.find_assign(fn, "output")) not in ("coord.copy()", "coord.astype(np.result_type(coord.dtype, np.float32))"):
         raise U("_scale_coord output init")
     env = {"oversamp": T.RAT, "n": T.INT}
     s, t = rat_or_int(vals["scale"], env)
